@@ -182,7 +182,7 @@ class C03(RunProp):
             for runner in ("sync", "async"):
                 yield {"program": c["program"], "values": c["values"], "cfg": {}, "runner": runner, "kind": "dag"}
         # whatever the seed: stacked gates, stacked-gate loops, plain loops
-        for c in [self._stacked_gates(rng) for _ in range(5)] + [dict(gen.gen_nested_gate_loop(rng), kind="loop") for _ in range(5)] + \
+        for c in [self._stacked_gates(rng) for _ in range(5)] + [dict(gen.gen_nested_gate_loop(rng, force=j < 3), kind="loop") for j in range(5)] + \
                 [dict(gen.gen_loop(rng), kind="loop") for _ in range(5)]:
             for runner in ("sync", "async"):
                 yield {"program": c["program"], "values": c["values"], "cfg": c.get("cfg", {}), "runner": runner, "kind": c["kind"]}
